@@ -5,7 +5,7 @@ import json
 CLAIMED = {
  "C01": ("§6 C01", "Seeded simulation of the real router, wrappers (proxy_protocol, tls, throttle, tee, subroute, echo) and Connection buffer over a simulated network with segmentation, short reads, latency, windows, half-close and reset; every consuming handler's reads are compared byte for byte with a reference stream at every read. Exploration: a clean batch is evidence, not proof.",
          "simulated network and clock (testing/synctest) stand in for the kernel; harness spec matchers stand in for arbitrary matcher read patterns; TLS client is crypto/tls"),
- "C02": ("§6 C02", "Seeded simulation of the real RouteList.Compile state machine (nested subroutes, and/or/not matcher sets, never-deciding and erroring matchers, terminal and non-terminal handlers) under arbitrary arrival schedules; the recorded history of leaf evaluations, handler invocations and fallback marks is checked against an independent executable spec of the documented combination rules. Exploration (sampled, not exhaustive).",
+ "C02": ("§6 C02", "Seeded simulation of the real RouteList.Compile state machine (nested subroutes, and/or/not matcher sets, never-deciding and erroring matchers, terminal and non-terminal handlers) under arbitrary arrival schedules, optionally a second connection through the same compiled configuration; the recorded history of leaf evaluations, handler invocations and fallback marks is checked against an independent executable spec of the documented combination rules. Exploration (sampled, not exhaustive).",
          "spec matchers with published pure verdict functions stand in for real matchers; the W-tcp top-level fallback (close) is observable only as absence of handlers, subroute fallbacks are observed directly; listener-wrapper fallback is covered by C13"),
  "C05": ("§6 C05", "Seeded simulation on the bubble clock (exact simulated time) of the matching phase over TCP and UDP with silent, trickling, flooding and stalling clients, timeouts 50ms..5s, sub-second start phases, nested subroute timeouts and empty route lists; timed oracle: not late, not early while undecided, bounded buffering, no handler after the deadline, deadline cleared for handlers and fallbacks.",
          "simulated clock and network; timers armed by the code under test fire 1us..3ms late (tape-chosen), as real timers do; UDP: only the first association of a client is judged"),
@@ -13,21 +13,21 @@ CLAIMED = {
          "bound is measured from the first read attempt of the connection (resp. of any connection for the total limiter); 0.05 byte slack for float rounding in x/time/rate"),
  "C13": ("§6 C13", "Seeded simulation of the real ListenerWrapper (accept loop, handler goroutines, connChan hand-off, shutdown draining) with mixes of terminal / fall-through / failing / TLS-terminated connections, slow consumers, connChan capacities 1..16, temporary accept errors and Close at arbitrary instants; oracle: exactly-once census, byte-exact replay through the poisoning pool, TLS connection state, closure of consumed/rejected connections, Accept reporting closure, no goroutine left, bounded liveness after Close.",
          "connection classes are decided by the first stream byte through spec matchers plus the real tls matcher/handler; GOMAXPROCS is set per run to choose the connChan capacity"),
- "C09": ("§6 C09", "Seeded simulation of the real UDP server loop and packetConn (reader goroutine, udpConns table, readCh/closeCh/closed protocol, idle and deadline timers) with several client addresses, bursts beyond the channel capacities, drop/dup/reorder/delay before arrival, handlers that finish after k datagrams, idle expiry, temporary read errors and socket Close; inserted yield points and a tape-driven select make the close/arrival windows explorable and replayable. Oracle over arrival order at the socket; process survival is part of the verdict.",
+ "C09": ("§6 C09", "Seeded simulation of the real UDP server loop and packetConn (reader goroutine, udpConns table, readCh/closeCh/closed protocol, idle and deadline timers) with 1..14 client addresses, bursts beyond the channel capacities, handlers that stay away from their queue or leave without reading, drop/dup/reorder/delay before arrival, handlers that finish after k datagrams, idle expiry, temporary read errors and socket Close; inserted yield points and a tape-driven select make the close/arrival windows explorable and replayable. Oracle over arrival order at the socket; process survival and bounded liveness of the loop (no permanent stall while the socket is open) are part of the verdict.",
          "no order is demanded between two simultaneously alive associations of one client (a stale close notification can start a second one); datagrams queued in an association that ends are excusably lost; goroutine exit at shutdown is not part of the statement and not checked"),
- "C03": ("§6 C03", "Seeded simulation of the real proxy handler (dial, chained TeeReader pump, per-upstream copiers, CloseWrite propagation, deferred cleanup) behind optional matcher/consume/throttle/proxy_protocol/tls handlers against 1..3 scripted upstream peers; reference streams in both directions, EOF propagation in either order while the other direction still flows, handler return, upstream closure and goroutine census, bounded liveness; faults (resets, stalls, early full close) in a separate configuration with prefix-only oracles.",
-         "TLS-terminated downstream is explored with a single peer (two relay goroutines writing one tls.Conn contend on a sync.Mutex that synctest cannot see); UDP up/downstream of the proxy is not in this world"),
- "C10": ("§6 C10", "The shipped selection policies run inside the real proxy handler behind a recording wrapper, in a simulated world with outages, health checks, limits and bursts of concurrent connections; at every Select the result is checked against the set the shipped available() reports at that instant (membership, none iff empty, first, round-robin fairness per window, ip_hash determinism and stability under removals, least_conn minimum); empty pools by direct invocation; panics are violations.",
+ "C03": ("§6 C03", "Seeded simulation of the real proxy handler (dial, chained TeeReader pump, per-upstream copiers, CloseWrite propagation, deferred cleanup) behind optional matcher/consume/throttle/proxy_protocol/tls handlers against 1..3 scripted upstream peers, optionally over TLS (the proxy's tls option); a datagram variant puts the real UDP server loop in front of the proxy with simulated UDP upstreams (fresh associations redial); reference streams in both directions, EOF propagation in either order while the other direction still flows, handler return, upstream closure and goroutine census, bounded liveness; faults (resets, stalls, early full close) in a separate configuration with prefix-only oracles.",
+         "TLS-terminated downstream is explored with a single peer (two relay goroutines writing one tls.Conn contend on a sync.Mutex that synctest cannot see); the TLS dial seam returns a wrapper that keeps crypto/tls's Write/CloseWrite/Close ordering with a simulator-visible lock"),
+ "C10": ("§6 C10", "The shipped selection policies run inside the real proxy handler behind a recording wrapper, in a simulated world with outages, health checks, limits and bursts of concurrent connections; at every Select the result is checked against the set the shipped available() reports at that instant (membership, none iff empty, first, round-robin fairness per window, ip_hash determinism and stability under removals, least_conn minimum); that availability snapshot is itself checked against the stated rule evaluated on the raw per-peer counters; empty pools by direct invocation; panics are violations.",
          "availability is taken from the implementation (its correctness is C11's subject); Select events during which availability changed concurrently are skipped; math/rand is seeded per run"),
- "C11": ("§6 C11", "Same world; the recorded history of dials, probes, selections, connection lifetimes and handler durations on the simulated clock is checked against a reference model of passive failure windows, active-check convergence, retry spacing/duration and connection limits; counters read through an accessor must never be negative.",
+ "C11": ("§6 C11", "Same world; the recorded history of dials, probes, selections, connection lifetimes and handler durations on the simulated clock is checked against a reference model of passive failure windows, active-check convergence, retry spacing/duration and connection limits; counters read through an accessor must never be negative and connection counts are conserved (never above the number of running handlers connected to the peer, zero when all have returned); a configuration reload mid-run (new handler on the same addresses, old one cancelled) is one of the drawn operations.",
          "instants exactly on a window edge are skipped; limits are checked for connections in their relay phase; outages are 'connection refused' (net.Dial has no timeout, a blackhole would mean the OS default)"),
- "C12": ("§6 C12", "Seeded simulation of the proxy_protocol matcher/handler and of the proxy handler's header emission (and their composition through a second simulated layer4 server), with headers from an independent encoder split/coalesced arbitrarily, allow lists, aborts mid-header, and an independent decoder at the upstream; payload integrity by the C01 oracle, addresses seen by handlers / ip matchers / placeholders, exact single header of the configured version with the effective addresses followed by the stream.",
+ "C12": ("§6 C12", "Seeded simulation of the proxy_protocol matcher/handler and of the proxy handler's header emission (and their composition through a second simulated layer4 server), with headers from an independent encoder split/coalesced arbitrarily, allow lists, aborts mid-header, and an independent decoder at the upstream; payload integrity by the C01 oracle, addresses seen by handlers / ip matchers / placeholders, exact single header of the configured version with the effective addresses followed by the stream; a complete well-formed header behind the shipped matcher must enter the route however it was split.",
          "v1 UNKNOWN and v2 LOCAL/UNSPEC headers declare no addresses: what the third-party library reports then is not judged; v2 headers with TLVs are rejected by the library (connection closed), which the oracle accepts"),
  "C16": ("§6 C16", "Seeded simulation of the real SOCKS5 handler over go-socks5 (instrumented copy: its dial, UDP listen and resolver calls go to the simulated network) with drawn command subsets and credential maps and scripted client negotiations (all method lists, credentials, command codes, address types, versions, truncations, segmentations); a small RFC 1928/1929 model decides permission and the census of outbound dials / UDP binds is compared with it; permitted CONNECT relays byte-exactly.",
          "name resolution through the (simulated) resolver is not counted as an outbound connection; UDP ASSOCIATE relaying itself is not exercised (the simulated ListenUDP records the bind and refuses)"),
- "C04": ("§6 C04", "Adversarial-client simulation (strength: sampling over inputs): per run one client offers random bytes, generator-made well-formed first messages, structure-aware and generic mutations of them to a shipped matcher (default and filtered configurations) or parsing handler over simulated TCP or UDP, under arbitrary segmentation and with close / reset / stall at an arbitrary byte; a panic or a run that never leaves repository code kills the worker and is reported with its seed; every matcher evaluation's allocation (MemStats.TotalAlloc delta) must stay below 32 x MaxMatchingBytes.",
+ "C04": ("§6 C04", "Adversarial-client simulation (strength: sampling over inputs): per run one client offers random bytes, generator-made well-formed first messages, structure-aware and generic mutations of them to a shipped matcher (default and filtered configurations) or parsing handler over simulated TCP or UDP, under arbitrary segmentation and with close / reset / stall at an arbitrary byte; a panic or a run that never leaves repository code kills the worker and is reported with its seed; every matcher evaluation's allocation (MemStats.TotalAlloc delta) must stay below 64 x MaxMatchingBytes (net/http alone costs 28 bytes per input byte on a buffer of minimal header lines).",
          "the quic matcher (spins a real quic-go listener with its own goroutines and timers) is not run inside the bubble; allocation is measured for matchers, handlers are checked for survival only; crash replays are by seed (the tape of a crashed run cannot be shrunk in-process)"),
- "C06": ("§6 C06", "Each input (generator-made valid message with trailing data, or a mutation) is delivered to the real router several times: whole, then under tape-chosen segmentations; a wrapper evaluates the shipped matcher twice per round and watches the client socket's read counter and the prefetch buffer. Oracle: no socket reads while matching, buffer untouched, repeatable verdict, a message that matches with the whole message buffered matches under every delivery, and a 'no' on a prefix is never followed by a 'yes' on a longer prefix of the same input.",
+ "C06": ("§6 C06", "Each input (generator-made valid message with trailing data, or a mutation) is delivered to the real router several times: whole, then under tape-chosen segmentations, optionally with a second deciding matcher set OR'ed into the route; a wrapper evaluates the shipped matcher twice per round and watches the client socket's read counter and the prefetch buffer. Oracle: no socket reads while matching, buffer untouched, repeatable verdict, a message that matches with the whole message buffered matches under every delivery, and a 'no' on a prefix is never followed by a 'yes' on a longer prefix of the same input.",
          "matchers that by design reject trailing bytes (dns/tcp, rdp, openvpn/tcp, winbox) get no trailing data; the quic matcher is excluded (see C04); inputs larger than MaxMatchingBytes are exempt from the whole-message reference"),
  "C08": ("§6 C08", "Two phases. (1) 2..64 simultaneous connections with distinct position-coded streams through one shared configuration (shared throttle limiter, tee, subroute, proxy with a drawn policy over shared upstreams, openvpn matcher, deterministic poisoning buffer pool): every handler, branch, upstream and echo must see exactly its own connection's stream and each connection must take the route its own bytes select. (2) The same and the other concurrent worlds (relay, listener wrapper, load balancing, UDP, rewind) in a -race build driven by the same seeded scheduler, whose park/release hand-offs are hidden from the detector (runtime.RaceDisable), so two accesses are reported exactly when the repository does not order them; reports with both accesses attributed to repository code are violations, replayable by seed.",
          "the race detector reports each distinct race once per process; the simulator's own (scheduler-serialised, detector-invisible) accesses are reported too and filtered by attribution; the poisoning pool gives the detector sync.Pool's Put->Get edge; one processor count (the schedule does not depend on GOMAXPROCS)"),
